@@ -208,6 +208,12 @@ def table_task(task):
             D = int(rng.integers(1, 4))
             G = 11
             clustered = c % 3 == 2
+            many = c == 1 and task["shard"] % 4 == 0
+            if many:
+                # a tree with more than 256 clones / mutations (sizes beyond one byte)
+                n, D, G = int(rng.integers(280, 330)), int(rng.integers(1, 3)), 5
+                clustered = task["shard"] % 8 == 0
+                part.count("traces_of_trees_with_more_than_256_clones")
             samples = ["S%d" % i for i in range(D)]
             data = gen.make_data(rng, n, D, G, kind="smooth")
             clusters = None
@@ -227,6 +233,9 @@ def table_task(task):
                 clusters = pd.DataFrame(rows).sort_values(by=["cluster_id", "mutation_id"]).reset_index(drop=True)
             corners = corner_forests(n)
             label, f = corners[c % len(corners)] if c % 2 == 0 else ("random", gen.random_forest(rng, n, p_outlier=0.25))
+            if many:
+                label, f = "many clones", gen.random_forest(rng, n, max_children=[8, 300][task["shard"] // 4 % 2], p_outlier=0.01,
+                                                            shape=[None, "star"][task["shard"] // 4 % 2], min_clones=258)
             others = [gen.random_forest(rng, n, p_outlier=0.2) for _ in range(2)]
             family = c % 4 in (1, 2)
             if family:
